@@ -86,6 +86,56 @@ class Impl:
         return canon({"ok": [[t.name, [[k.start, v] for k, v in t.spans.items()]] for t in out]})
 
 
+def _default_to_taxa(self, labels):
+    """`Taxonomy().to_taxa(labels)` on the DEFAULT table: (what it feeds to deduplicated_taxa, its
+    result). labels = [[name, [span ids]]]."""
+    mk = lambda: [self.Label(L, [self.Span(s, s, "p") for s in sp]) for L, sp in labels]
+    can = lambda taxa: canon({"ok": [[t.name, [[k.start, v] for k, v in t.spans.items()]] for t in taxa]})
+    saved = self.mt.deduplicated_taxa
+    try:
+        self.mt.deduplicated_taxa = lambda taxa: taxa
+        raw = can(self.mt.Taxonomy().to_taxa(mk()))["ok"]
+    finally:
+        self.mt.deduplicated_taxa = saved
+    try:
+        out = can(self.mt.Taxonomy().to_taxa(mk()))
+    except Exception as exc:  # noqa
+        out = {"exc": type(exc).__name__}
+    return raw, out
+
+
+Impl.default_to_taxa = _default_to_taxa
+
+
+def default_label_lists(rng, n):
+    """Label lists for the default table producing `flow/exception/catch/` (trailing slash: the
+    optional group of the row does not take part), its sibling `flow/exception/catch/ValueError`,
+    and — through taxon-like labels — their ancestors."""
+    pool = ["try_except:Foo", "try_except:ValueError", "try_except:None", "try_except", "try_except:KeyError",
+            "try_raise:Foo", "try_raise:ValueError", "flow/exception/catch", "flow/exception", "flow/exception/raise",
+            "flow/exception/catch/", "addition_operator", "operator/arithmetic", "operator/arithmetic/addition"]
+    out = [[["try_except:Foo", [3]], ["try_except:ValueError", [3, 5]], ["flow/exception/catch", [3, 3]]],
+           [["try_except:Foo", [1]], ["try_except:ValueError", [1]]]]
+    for _ in range(n):
+        out.append([[rng.choice(pool), [rng.randint(0, 3) for _ in range(rng.randint(0, 3))]]
+                    for _ in range(rng.randint(1, 8))])
+    return out
+
+
+def random_trailing(rng):
+    """Clean names, some of them followed by one trailing `/` (next to the same name without it,
+    or alone), sorted."""
+    t = random_clean(rng, 7, 4, 3, 3, word_roots=rng.random() < 0.5)
+    out = {n: b for n, b in t}
+    for n, b in t:
+        r = rng.random()
+        if r < 0.35:
+            out[n + "/"] = [[s, rng.randint(1, 3)] for s in rng.sample(range(3), rng.randint(1, 3))]
+        elif r < 0.5:
+            out[n + "/"] = out.pop(n)
+    return [[n, out[n]] for n in sorted(out)]
+
+
 def nontrivial(taxa):
     """Some taxon shares a span with a more specific one: deduplication has something to do."""
     for n, b in taxa:
@@ -283,7 +333,9 @@ def run(ctx):
             "bx1: ALL subsets of the 9-name pool × one span × counts 1..2 (3^9 = 19683, exhaustive); "
             "bx2: all subsets of ≤3 (quick) / ≤4 (thorough) names × every non-empty bag over 2 spans × counts ≤ 2 "
             "(exhaustive); random deeper pools (several roots, punctuation sorting before '/', depth ≤ 5, counts ≤ 3, "
-            "3 spans); the same inputs through Taxonomy.to_taxa (sorting step); an unclean/unsorted stream outside the "
+            "3 spans); the same inputs through Taxonomy.to_taxa (sorting step, hints named like a translated taxon); names with "
+            "one trailing '/' (allowed by the hypotheses); label lists through the DEFAULT table producing "
+            "flow/exception/catch/; an unclean/unsorted stream outside the "
             "theorems' hypotheses (model must still agree, clauses not required)"
         )
         # 0. corpus
@@ -343,6 +395,25 @@ def run(ctx):
                  runner=via_to_taxa, via="Taxonomy.to_taxa")
         hinted = sum(1 for t in tt_cases for L, _ in impl.labels_for(t)[1] if not L.startswith("lab_"))
         ctx.cov["to_taxa_hint_labels_colliding_with_a_translation"] = hinted
+        # 4b. names with ONE trailing '/' (inside the weakened hypotheses: the clauses are evaluated)
+        n_tr = 1500 if quick else 30000
+        ck.batch("trailing-slash", [
+            [["flow/exception/catch", [[3, 2]]], ["flow/exception/catch/", [[3, 1]]],
+             ["flow/exception/catch/ValueError", [[3, 1], [5, 1]]]],
+            [["a", [[0, 1]]], ["a/", [[0, 1]]]], [["a/", [[0, 1]]], ["a/b", [[0, 1]]]],
+        ] + [random_trailing(ctx.rng) for _ in range(n_tr)])
+        # 4c. through the DEFAULT table: `try_except:Foo` -> `flow/exception/catch/`
+        lists = default_label_lists(ctx.rng, 40 if quick else 1500)
+        pre = {}
+        cases = []
+        for labels in lists:
+            raw, out = impl.default_to_taxa(labels)
+            pre[json.dumps(raw)] = out
+            cases.append(raw)
+            if any(n.endswith("/") for n, _ in raw):
+                ctx.dist("default-to_taxa:has-trailing-slash-taxon")
+        ck.batch("default-to_taxa", cases, runner=lambda t: pre.get(json.dumps(t)) or impl.dedup(t),
+                 via="Taxonomy().to_taxa (default table), input = what it feeds to deduplicated_taxa")
         # 5. unclean / unsorted / non-positive counts: outside the hypotheses, model must agree
         n_un = 3000 if quick else 40000
         ck.batch("unclean", [random_unclean(ctx.rng) for _ in range(n_un)])
@@ -378,6 +449,8 @@ def run(ctx):
         "C10_no_invention, C10_unshared_kept, C10_covered_lost: the three clauses, for every strictly sorted list of clean "
         "names (any roots, any characters) with positive-count bags",
         "C10_names_kept_in_order; C10_exec_forms (the Bool forms run by the driver are equivalent to the clauses)",
+        "C10_to_taxa: sorted(acc.items()) of Taxonomy.to_taxa is strictly sorted with positive dict bags, so the clauses hold "
+        "of to_taxa's result whenever the taxon names are admissible",
     ]
     ctx.cov["exercised_only"] = [
         "agreement of the Python function with the model (differential testing)",
@@ -390,7 +463,8 @@ def run(ctx):
         "dict insertion order of Counters is not observed (bags are compared as sorted item lists)",
     ]
     ctx.assumptions += [
-        "theorem hypotheses: names strictly increasing in code-point order (sorted keys of a dict), no empty or '.' segment, "
+        "theorem hypotheses: names strictly increasing in code-point order (sorted keys of a dict), no empty or '.' segment "
+        "except one trailing '/', "
         "bags with distinct keys and positive counts (what Counter.update produces); checked by the driver on every case",
         "spans are opaque hashable keys (the harness numbers them)",
     ]
